@@ -115,6 +115,19 @@ def step(n, members, edges, op, pure=False, sched=None, jobs=None):
                            sorted(want), sorted(inner)))
         if not seq.acyclic(got_members, inner):
             msgs.append("%s makes the scheduler cyclic" % fmt(op))
+        # behavioural probe for requirement sets shared between jobs
+        probe = SJob('probe', 9)
+        for name in sorted(got_members):
+            before = {n: set(jobs[n].required) for n in got_members}
+            jobs[name].requires(probe)
+            hit = [n for n in sorted(got_members)
+                   if n != name and set(jobs[n].required) != before[n]]
+            jobs[name].requires(probe, remove=True)
+            if hit:
+                msgs.append("after %s, adding a requirement to %s also "
+                            "changes the requirements of %s"
+                            % (fmt(op), name, hit))
+                break
         try:
             ok = sched.check_cycles()
         except Exception as exc:
